@@ -115,11 +115,11 @@ def cfgname(cfg):
 
 def programs(cfg):
     """the client programs of one configuration: (suffix, -D flags).  Without LTO the library call is opaque and one program
-    holds all victims; with LTO one program per storage kind and slot, so that every erase function has a single call site
-    and the link-time optimiser is free to inline it into the victim (where the buffer is dead)."""
+    holds all victims; with LTO one program per storage kind and slot, so that every erase function (and every set primitive)
+    has a single call site and the link-time optimiser is free to inline it into the victim (where the buffer is dead)."""
     if not cfg[2]:
         return [("all", [])]
-    return [("s%d_%d" % (st, sl), ["-DSEL_STORAGE=%d" % st, "-DSEL_SLOT=%d" % sl]) for st in (1, 2, 3, 4) for sl in (0, 1, 2)]
+    return [("s%d_%d" % (st, sl), ["-DSEL_STORAGE=%d" % st, "-DSEL_SLOT=%d" % sl]) for st in (1, 2, 3, 4) for sl in (0, 1, 2, 3)]
 
 
 def build_client(cfg, outdir, suffix="all", defs=()):
@@ -248,8 +248,19 @@ def run_validator(res, tier, known, only=None, keep=None):
                 calls += 1 if di.get("chk") else 0
                 fails = []
                 if result != "erased":
-                    fails.append(("%s:%s:%s:%s" % (fn, "dead-store-eliminated" if result == "secret-left" else result, storage,
-                                                   "lto" if lto else "nolto"),
+                    kind = result
+                    if result == "secret-left":
+                        # which part of the secret survived: only bytes inside the 8-byte-aligned interior of the range (the word
+                        # stores of mem_prim_set) or also the bytes it writes one at a time; without an address (stack scan):
+                        # part of the range or all of it
+                        total = (int(d["n"]) - int(d["off"])) * int(d["w"])
+                        leaked, edge = int(d.get("leaked", 0)), int(d.get("edge", -1))
+                        if storage == "stack-noescape":
+                            extent = "partial" if leaked < total else "everything"
+                        else:
+                            extent = "words-only" if edge == 0 else "incl-byte-stores"
+                        kind = "dead-store-eliminated:" + extent
+                    fails.append(("%s:%s:%s:%s" % (fn, kind, storage, "lto" if lto else "nolto"),
                                   "the erased buffer was inspected out-of-band after the call: %s" % d))
                 if not lto and di and not di.get("chk"):
                     fails.append(("%s:call-missing:%s:nolto" % (fn, storage),
